@@ -325,8 +325,35 @@ def check_case(case, opts):
     return check_mut_case(case, opts)
 
 
+def check_dag_case(case, opts):
+    """a directory inode that several entries point at (no loop: nothing is its own ancestor), repeated level after level: the
+    number of paths doubles per level while the image stays a few KiB"""
+    depth = case["depth"]
+    node = dict(type="dir", name=b"a", id="L%d" % depth, children=[dict(type="file", name=b"leaf", data=b"x", frag=True)])
+    for lv in range(depth - 1, 0, -1):
+        node = dict(type="dir", name=b"a", id="L%d" % lv, children=[node, dict(type="dir", name=b"b", link_to="L%d" % (lv + 1))])
+    root = dict(type="dir", name=b"", children=[node, dict(type="dir", name=b"b", link_to="L1")], mode=0o755)
+    try:
+        img, _ = sqfswrite.build(root, pad=4096)
+    except Exception as e:
+        raise Inconclusive("writer: %r" % e)
+    with Scratch("c05d") as sc:
+        p = os.path.join(sc, "dag.sqfs")
+        with open(p, "wb") as fh:
+            fh.write(img)
+        r = vcommon.run([vcommon.tool("plain", "sqfs2tar"), p], timeout=case.get("limit", 20), cwd=sc, stdout_file="/dev/null")
+        what = "sqfs2tar on a %d byte image in which %d directory inodes are each referenced by two entries of their parent (2^%d paths, no loop)" % (len(img), depth, depth)
+        if r.timeout:
+            raise Violation("%s does not finish within %d s" % (what, case.get("limit", 20)), None, sig="dir-dag-exponential" if depth >= 30 else "hang-shape")
+        if r.sanitizer() or r.rc not in (0, 1):
+            raise Violation("%s: %s" % (what, r.sanitizer() or ("exit status %s" % r.rc)), r.err.decode(errors="replace")[-800:], sig="crash")
+        return CaseInfo(True, ["shape_dag_%d_rc%d" % (depth, r.rc)])
+
+
 def check_shape_case(case, opts):
     """valid images of an extreme shape written by gensquashfs itself: 'chain' = one directory inside the other, depth levels deep"""
+    if case["shape"] == "dag":
+        return check_dag_case(case, opts)
     depth = case["depth"]
     with Scratch("c05s") as sc:
         lf = os.path.join(sc, "l.txt")
@@ -480,7 +507,8 @@ def main(tier, seed, scale=1.0):
         res.nt_count += len(res.nontrivial)
     # valid images of extreme shape: directory chains deep enough to exhaust the stack of a recursive walk (the sanitizer build uses
     # larger frames, the plain build needs about 50000 levels with an 8 MiB stack)
-    for sc_ in ([dict(shape="chain", depth=30000), dict(shape="chain", depth=400), dict(shape="chain", depth=4500), dict(shape="chain", depth=60000, variant="plain")] if scale >= 0.2 else []):
+    for sc_ in ([dict(shape="chain", depth=30000), dict(shape="chain", depth=400), dict(shape="chain", depth=4500), dict(shape="chain", depth=60000, variant="plain"),
+                 dict(shape="dag", depth=4), dict(shape="dag", depth=12), dict(shape="dag", depth=40)] if scale >= 0.2 else []):
         res.evaluations += 1
         try:
             ci = check_shape_case(sc_, opts)
@@ -488,6 +516,10 @@ def main(tier, seed, scale=1.0):
             for c in ci.classes:
                 res.add_class(c)
         except Violation as v:
+            if v.sig and v.sig in vcommon.known_active(PROP):
+                res.known_hits[v.sig] = v.what
+                res.add_class("excluded_known")
+                continue
             res.violations.append((str(v), vcommon.save_replay(PROP, sc_, str(v))))
         except Inconclusive:
             res.add_class("shape_inconclusive")
